@@ -205,7 +205,7 @@ def r2(ctx):
         ok = cfg.dominates(n_def, n_pb) and cfg.find_path(n_pb, n_def) is None
     ctx.ob(push.qual, "new-index-is-size-before-push", ok, push.loc(), "newindex = heap.size() is taken before push_back: it is the pushed slot's index" if ok else "newindex is not the size before push_back")
     st = [s for s in util.store_sites(push.node) if s.kind == "subscript" and u(s.target.value) == "self.positions"]
-    ok = len(st) == 1 and u(st[0].target.slice) == item_p and u(st[0].value) == "newindex"
+    ok = (None if not st else (len(st) == 1 and u(st[0].target.slice) == item_p and u(st[0].value) == "newindex"))
     ctx.ob(push.qual, "position-of-pushed-item", ok, push.loc(st[0].stmt) if st else push.loc(), "positions[item] = index of the pushed slot" if ok else "positions[...] is not set to the pushed slot's index under the pushed item")
     ent = {u(s.target): u(s.value) for s in util.store_sites(push.node) if s.kind == "attr" and u(s.target.value) == "entry"}
     ok = ent == {"entry.first": score_p, "entry.second": item_p} and pb and u(pb[0].args[0]) == "entry"
@@ -257,7 +257,7 @@ def r3(ctx):
     ctx.ob(cs.qual, "score-replaced-at-the-items-slot", ok, cs.loc(), "the old score is read, then the new score stored, at positions[item]" if ok else "change_score does not replace the score at the item's recorded slot")
     ups = [c for c in ctx.prog.calls_in(cs.node) if u(c.func) == "self._sift_up"]
     downs = [c for c in ctx.prog.calls_in(cs.node) if u(c.func) == "self._sift_down"]
-    ok = len(ups) == 1 and len(downs) == 1 and u(ups[0].args[0]) == "position" and u(downs[0].args[0]) == "position"
+    ok = (None if not ups else (len(ups) == 1 and len(downs) == 1 and u(ups[0].args[0]) == "position" and u(downs[0].args[0]) == "position"))
     if ok:
         gu = guard_atoms(ccfg, ccfg.node_containing(ups[0]))
         gd = guard_atoms(ccfg, ccfg.node_containing(downs[0]))
@@ -345,7 +345,7 @@ def r3(ctx):
             first = sw[0][1]
             ch = [u(a_) for a_ in first.args if u(a_) != idx]
             n_sw += 1
-            okc = len(ch) == 1 and ch[0] in (L, R) and len(first.args) == 2
+            okc = (None if not ch else (len(ch) == 1 and ch[0] in (L, R) and len(first.args) == 2))
             cond = bigger = follow = False
             if okc:
                 c_ = ch[0]
